@@ -28,15 +28,23 @@ type mrule struct {
 	own        []adm // content of the rule's stand-alone window (tokens admitted on the observed resource since load)
 }
 
-// geom: window geometry of a reject rule with statistic interval i under the default global
-// configuration (array 20 x 500 ms, default metric 2 x 500 ms), from the rule documentation.
+// statCfg is the process-wide statistic configuration of the running case.
+var statCfg = hx.DefaultStat
+
+// geom: window geometry of a reject rule with statistic interval i under the process-wide configuration (array of GS
+// buckets over GI ms, default metric of MS samples over MI ms), from the rule documentation: interval 0 or the default
+// metric's interval reads the default metric; an interval that is a multiple of the array's bucket and divides the array's
+// interval reads the resource's array through a window of its own length; a multiple of the bucket that does not divide
+// the array's interval gets an array of its own with buckets of the same length; anything else a single bucket of its own.
 func geom(i uint32) (bl, iv uint64, standalone bool) {
-	if i == 0 || i == 1000 {
-		return 500, 1000, false
+	c := statCfg
+	gbl := c.GI / c.GS
+	if i == 0 || i == c.MI {
+		return uint64(gbl), uint64(c.MI), false // (a read window slides by the ARRAY's buckets, whatever its own sample count)
 	}
 	iv = uint64(i)
-	if i >= 500 && i <= 10000 && i%500 == 0 {
-		return 500, iv, 10000%i != 0
+	if i >= gbl && i <= c.GI && i%gbl == 0 {
+		return uint64(gbl), iv, c.GI%i != 0
 	}
 	return iv, iv, true
 }
@@ -151,7 +159,14 @@ func record(ms []*mrule, passes map[string][]adm, res string, now uint64, b uint
 
 func TestSequential(t *testing.T) {
 	hx.Check(t, hx.N{Quick: 30000, Thorough: 300000}, func(t *rapid.T, c *hx.Case) {
-		hx.Reset(hx.Epoch + uint64(rapid.IntRange(0, 20000).Draw(t, "t0")))
+		statCfg = hx.DefaultStat
+		if k := rapid.IntRange(0, 2*len(hx.StatCfgs)).Draw(t, "statConfig"); k < len(hx.StatCfgs) { // one case in two under a legal non-default configuration
+			statCfg = hx.StatCfgs[k]
+		}
+		defer func() { statCfg = hx.DefaultStat }()
+		hx.ResetCfg(hx.Epoch+uint64(rapid.IntRange(0, 20000).Draw(t, "t0")), statCfg, nil)
+		c.ClassIf(statCfg != hx.DefaultStat, "non-default-statistic-configuration")
+		c.Op("statistic configuration %+v", statCfg)
 		ms := drawRules(t, c, 3)
 		pacerFirst = rapid.IntRange(0, 3).Draw(t, "pacingRuleFirst") == 0
 		hx.C.Advance = pacerFirst // the (single) caller really sleeps the wait it is asked for
